@@ -175,7 +175,7 @@ theorem reject_length_changed (st : Reader) (cid form : Nat) (hl : FormLegal cid
     readMessageHeader, hopen, Option.isNone_some, Option.isSome_some, hsz1]
   split
   · rfl
-  · simp only [show ¬ (1 : Nat) = 0 by decide, and_false, if_false, Res.bind_ok]
+  · simp only [show ¬ (1 : Nat) = 0 by decide, and_false, if_false]
     rw [readFull_append _ _ s7]
     simp only [Res.bind_ok, applyHeader_1, fL, s33, hL]
     have hne' : ¬ ch.hdr.len = len := fun h => hne h.symm
